@@ -151,6 +151,10 @@ pub fn expected_fields(op: &Op) -> Vec<FieldExp> {
             let f = if op.arg(0) % 2 == 0 { 2 } else { op.arg(1) % 2 };
             v.push(fe("HEST AER flags", 6, 1, u64::MAX, f));
         }
+        K::HeGhes | K::HeGhesV2 => {
+            // ACPI 6.5 table 18.x generic hardware error source: Enabled @7 (1 = enabled)
+            v.push(fe("GHES enabled", 7, 1, u64::MAX, op.arg(1) % 2));
+        }
         K::TcpaServer => {
             let dev = (any(op, K::TsPci) as u64) | (any(op, K::TsPnp) as u64) << 1 | (any(op, K::TsConfig) as u64) << 2;
             let int = (any(op, K::TsEdge) as u64) | (any(op, K::TsActiveLow) as u64) << 1 | (any(op, K::TsSciGpe) as u64) << 2 | (any(op, K::TsGsi) as u64) << 3;
